@@ -632,6 +632,35 @@ struct Direct {
     list: BTreeMap<String, Vec<String>>,
     table: BTreeMap<String, String>,
     verdicts: Vec<String>,
+    /// what the root directory holds besides `t` (for the Lean world model)
+    root_extra: Vec<Entry>,
+}
+
+/// the inode tree below `/`, except `/t`, as entries
+fn root_extra(state: &RefCell<SystemState>) -> Vec<Entry> {
+    fn walk(node: &Rc<RefCell<Inode>>, prefix: &str, out: &mut Vec<Entry>, top: bool) {
+        let node = node.borrow();
+        let FileBody::Directory { files } = &node.body else { return };
+        let mut names: Vec<_> = files.iter().filter_map(|(k, v)| k.to_str().map(|s| (s.to_string(), Rc::clone(v)))).collect();
+        names.sort_by(|a, b| a.0.cmp(&b.0));
+        for (n, child) in names {
+            if top && n == "t" {
+                continue;
+            }
+            let path = format!("{prefix}{n}");
+            let kind = match &child.borrow().body {
+                FileBody::Directory { .. } => Entry::Dir(path.clone(), child.borrow().permissions.bits() as u32),
+                FileBody::Symlink { target } => Entry::Link(path.clone(), target.to_string_lossy().into_owned()),
+                _ => Entry::File(path.clone()),
+            };
+            out.push(kind);
+            walk(&child, &format!("{path}/"), out, false);
+        }
+    }
+    let root = Rc::clone(&state.borrow().file_system.root);
+    let mut out = vec![];
+    walk(&root, "", &mut out, true);
+    out
 }
 
 /// the variable the scalar / declaration contexts assign to
@@ -710,6 +739,7 @@ fn prepare(env: &mut VEnv, state: &Rc<RefCell<SystemState>>, prim: &Prim, d: &mu
         d.error = Some(format!("bad-tree:{e}"));
         return;
     }
+    d.root_extra = root_extra(state);
     if env.system.chdir(c"/t").is_err() {
         d.error = Some("chdir".into());
         return;
@@ -837,6 +867,11 @@ fn prepare(env: &mut VEnv, state: &Rc<RefCell<SystemState>>, prim: &Prim, d: &mu
                 Kind::Invalid => "N".to_string(),
                 Kind::Literal(s) => format!("L{}", enc_str(s)),
                 Kind::Pattern(pat) => {
+                    // the leading-period rule on the real crate: a name starting with a period is only
+                    // matched by a pattern that starts with a period character (quoted or not)
+                    if p.first().map(|c| c.char_value()) != Some('.') && names.iter().any(|n| n.starts_with('.') && pat.is_match(n)) {
+                        d.verdicts.push(format!("period-rule:{key}"));
+                    }
                     let ms: Vec<String> = names.iter().filter(|n| pat.is_match(n)).map(|n| enc_str(n)).collect();
                     if ms.is_empty() { "P".to_string() } else { format!("P={}", ms.join(".")) }
                 }
@@ -1063,7 +1098,7 @@ fn run_prim(prim: &Prim) -> (String, String, String) {
     );
     let d = direct.borrow();
     let case = format!(
-        "{} | F {} | E {} | L {} | M {}",
+        "{} | F {} | E {} | L {} | M {} | X {}",
         show_prim(prim),
         show_fields(&d.fields),
         if d.exist.is_empty() { "-".to_string() } else { d.exist.iter().map(|p| enc_str(p)).collect::<Vec<_>>().join(",") },
@@ -1077,6 +1112,7 @@ fn run_prim(prim: &Prim) -> (String, String, String) {
                 .join(",")
         },
         if d.table.is_empty() { "-".to_string() } else { d.table.iter().map(|(k, v)| format!("{k}={v}")).collect::<Vec<_>>().join(",") },
+        show_tree(&d.root_extra),
     );
     if let Some(e) = &d.error {
         return (case, e.clone(), "-".into());
@@ -1136,7 +1172,7 @@ fn run_guarded(prim: &Prim) -> (String, String, String) {
         out.1.clone()
     });
     if o.starts_with("PANIC") {
-        (format!("{} | F / | E - | L - | M -", show_prim(prim)), o.clone(), format!("FAIL:{o}"))
+        (format!("{} | F / | E - | L - | M - | X -", show_prim(prim)), o.clone(), format!("FAIL:{o}"))
     } else {
         out
     }
